@@ -14,6 +14,7 @@ from contracts.replays import replay  # noqa: F401  (used by the runner)
 
 ID = "C16"
 LEVEL = "proof"
+CROSSCHECK = True   # run the CPython cross-check of the executor encoding (pyvc/crosscheck.py)
 FILES = ["moclo/moclo/regex.py"]
 F = "moclo/moclo/regex.py"
 FUNCTIONS = [(F, "DNARegex._transcribe"), (F, "DNARegex.__init__"), (F, "DNARegex.search"), (F, "SeqMatch.group"),
